@@ -25,10 +25,13 @@ RULE = ("inductive step checked exhaustively: for every board with <= 6 cells (q
         "configurations, every update proposed by candidates(): the result must be a valid partition inside the bounds and "
         "the input must be unchanged (deep comparison + aliasing probe); split_block for every connected block and every "
         "pair of seeds; initial(); seeded random walks on 4x4..6x6; distinct = distinct (board, bounds, partition)")
-TECHNIQUE = ("pyvc (proved, all boards and bounds): every update proposed by candidates() for a valid value keeps the block count and every new block size inside the bounds, names distinct existing blocks and conserves the cells; the block-id table is the index of the containing block; _copy_with_update = previous minus excluded (order kept) ++ appended, kept blocks copied when asked, previous only read (split_block / _is_connected by contract); connectivity: bounded stand-in for the representation-invariant contract valid(B) => valid(copy_with_update(B, u)) and "
+TECHNIQUE = ("pyvc (proved, all boards and bounds): every update proposed by candidates() for a valid value keeps the block count and every new block size inside the bounds, names distinct existing blocks and conserves the cells; split_block's own contract (two non-empty parts whose sizes add up, every cell to exactly one part) is discharged on the real function with only its nested bfs by contract; the block-id table is the index of the containing block; _copy_with_update = previous minus excluded (order kept) ++ appended, kept blocks copied when asked, previous only read (split_block / _is_connected by contract); connectivity: bounded stand-in for the representation-invariant contract valid(B) => valid(copy_with_update(B, u)) and "
              "frame (B unchanged) on the real SegmentationBuilder2D, exhaustive over all valid states of small boards")
 LEVEL_TEXT = ("exploration: the counting half of the invariant (block count, block sizes, conservation of cells, copy semantics) is proved for all boards; connectivity/partition-ness rest on sets, dicts, deque and "
               "recursion outside the verified subset; the invariant is checked for every valid state of the small boards")
 LEVEL_NOTE = "trusted: the validity checker in bounded/generator.py (BFS); scope: boards up to 6 / 9 cells exhaustively, walks beyond"
 TRUSTED = ["bounded/generator.py: partition_ok/bounds_ok"]
-ASSUMPTIONS = ["bound configurations without any feasible partition are outside"]
+ASSUMPTIONS = ["bound configurations without any feasible partition are outside",
+               "assumed contract (pyvc): the nested bfs(seed) of split_block returns a table defined on every cell of the block that is 0 exactly at the seed and >= 0 elsewhere (needs a connected block; set/dict/deque outside the subset) - everything else of split_block (distinct seeds, every cell to exactly one part, both parts non-empty, sizes add up) is discharged on the real function",
+               "assumed contract (pyvc): srandom.randint(a, b) returns an integer in [a, b] (proved under C19)",
+               "assumed contract (pyvc): _is_connected returns a bool (recursion over sets outside the subset; bounded tier decides it on small boards)"]
